@@ -213,7 +213,8 @@ pub fn app_layer(scratch: &crate::world::app::Scratch, net: &Net, st: &mut Stats
         spec.orientation = orientation.into();
         spec.algorithm = json!({"type": "a*", "weight_factor": 1.0});
         spec.output_plugins = vec![json!({"type": "traversal", "route": "edge_id", "tree": "json", "geometry_input_file": "$DIR/geometries.txt"})];
-        let dir = scratch.path.join(format!("a{}_{}", net.hash_idx(), orientation));
+        static APP_DIR_COUNTER: std::sync::atomic::AtomicU64 = std::sync::atomic::AtomicU64::new(0);
+        let dir = scratch.path.join(format!("a{}_{}_{}", net.hash_idx(), orientation, APP_DIR_COUNTER.fetch_add(1, std::sync::atomic::Ordering::Relaxed)));
         let app = match spec.build(&dir) {
             Ok(a) => a,
             Err(e) => {
